@@ -655,6 +655,8 @@ func init() {
 }
 
 func runC19(t *testing.T, c *Case, o RunOpts) *Result {
+	noteCase(c)
+	defer progress.Add(1)
 	switch c.Kind {
 	case "processor":
 		return runProcessor(t, c, o)
